@@ -158,3 +158,69 @@ Theorem C10_disabled : forall ord cfg port s c rest,
                    (sts_enabled s = false -> sts_enabled s' = false /\ ret <> RSTSUpgradeFailed).
 Proof. exact disabled_connect. Qed.
 Print Assumptions C10_disabled.
+
+(* ---- the same with the hypothesis on the acknowledgement itself ------------- *)
+(* The connection script is pre ++ ACK :: post: the lines before the acknowledgement did not
+   end the connection; the acknowledgement lists sts and the advertised policy has a usable
+   port p.  Then the connection's log ends with the upgrade — nothing of `post` is handled,
+   nothing is written in or after the acknowledgement — and the same call dials (p, TLS) next. *)
+Theorem C10_upgrade_from_ack : forall ord cfg port s c rest pre now a toks post st1 outs1 p,
+  c_ssl cfg = false -> sts_enabled s = false -> cs_dial_ok c = true -> c_tracking cfg = true ->
+  c_disable_sts cfg = false ->
+  cs_events c = pre ++ (now, ack_params a toks) :: post ->
+  run_events ord cfg false (cap_init s) pre = (st1, outs1, StopNone) ->
+  acks_sts toks -> usable_port (advertised_policy st1) p ->
+  let s1 := set_begin_upgrade false (set_upgrade_port p s) in
+  start_conn ord cfg port s (c :: rest) =
+    (mkLog port false true (outs1 ++ [[Upgrade]]) :: fst (fst (start_conn ord cfg port s1 rest)),
+     snd (fst (start_conn ord cfg port s1 rest)), snd (start_conn ord cfg port s1 rest)) /\
+  Forall only_writes outs1 /\
+  sts_enabled s1 = true /\ upgrade_port s1 = p /\
+  (forall c2 rest2, rest = c2 :: rest2 ->
+     exists l ret s', start_conn ord cfg port s1 rest = ([l], ret, s') /\ dialled l p true /\
+                      l_connected l = cs_dial_ok c2).
+Proof. exact upgrade_from_ack. Qed.
+Print Assumptions C10_upgrade_from_ack.
+
+Theorem C10_invalid_from_ack : forall ord cfg port s c rest pre now a toks post st1 outs1,
+  let tls := c_ssl cfg || sts_enabled s in
+  cs_dial_ok c = true -> (tls = true -> cs_hs_ok c = true) -> c_tracking cfg = true ->
+  c_disable_sts cfg = false ->
+  cs_events c = pre ++ (now, ack_params a toks) :: post ->
+  run_events ord cfg tls (cap_init s) pre = (st1, outs1, StopNone) ->
+  acks_sts toks ->
+  (tls = false /\ no_usable_port (advertised_policy st1)) \/ (tls = true /\ no_duration (advertised_policy st1)) ->
+  exists s',
+    start_conn ord cfg port s (c :: rest) =
+      ([mkLog (server_port port s) tls true (outs1 ++ [[InjectError (advertised_policy st1)]])], RErrEvent, s') /\
+    Forall only_writes outs1 /\ policy_dropped s' /\ server_port port s' = port.
+Proof. exact invalid_from_ack. Qed.
+Print Assumptions C10_invalid_from_ack.
+
+(* ---- persistence over any number of later Connect calls --------------------- *)
+Theorem C10_persist_calls : forall ord cfg port calls s k sb c res,
+  nth_error (policies_before ord cfg port s calls) k = Some sb ->
+  nth_error calls k = Some c -> c <> [] ->
+  nth_error (connects ord cfg port s calls) k = Some res ->
+  sts_enabled sb = true ->
+  exists l, fst (fst res) = [l] /\ dialled l (upgrade_port sb) true.
+Proof. exact persist_calls. Qed.
+Print Assumptions C10_persist_calls.
+
+(* ---- DisableSTS / configured SSL: never requested, never acted on ------------ *)
+(* composes with C08: CAP REQ lists only keys of possibleCapList *)
+Theorem C10_requested_iff : forall cfg recent,
+  aget s_sts (c_supported cfg) = None ->
+  amem s_sts (possible_caps cfg recent) =
+  negb (c_disable_sts cfg) && negb (c_ssl cfg) && negb (recent && negb (c_disable_fallback cfg)).
+Proof. exact possible_caps_sts. Qed.
+Print Assumptions C10_requested_iff.
+
+Theorem C10_ssl : forall ord cfg port s c rest,
+  c_ssl cfg = true -> aget s_sts (c_supported cfg) = None -> sts_enabled s = false ->
+  honest_run ord cfg true (cap_init s) (if c_tracking cfg then cs_events c else []) ->
+  exists l ret s', start_conn ord cfg port s (c :: rest) = ([l], ret, s') /\
+                   dialled l port true /\ Forall only_writes (l_outs l) /\
+                   ret <> RErrEvent /\ ret <> RSTSUpgradeFailed /\ sts_enabled s' = false.
+Proof. exact ssl_connect. Qed.
+Print Assumptions C10_ssl.
